@@ -34,15 +34,23 @@ func FuzzWire(f *testing.F) {
 		f.Add(append([]byte{1}, head...))
 	}
 	v.close()
+	var shared *victim
 	f.Fuzz(func(t *testing.T, data []byte) {
 		if len(data) == 0 || len(data) > 4096 {
 			return
+		}
+		if shared == nil {
+			// one victim per fuzz worker process: the wire layer never writes to it
+			var err error
+			if shared, err = newVictim(false, blob, 8, nil); err != nil {
+				t.Skip()
+			}
 		}
 		c := WCase{Accept: data[0]%2 == 0, Blob: blob, PieceLen: 8, Frames: []Frame{{Raw: data[1:]}}}
 		if c.Frames[0].Raw == nil {
 			c.Frames[0].Raw = []byte{}
 		}
-		if verdict := runW(c); verdict.Violation != "" {
+		if verdict := runWOn(shared, c); verdict.Violation != "" {
 			t.Fatalf("VIOLATION C14/wire: %s", verdict.Violation)
 		}
 	})
